@@ -284,6 +284,14 @@ func TestC03Joins(t *testing.T) {
 			tenv.JoinTables = []string{"C", "B"}
 		}
 		db := gen.GenDB(rt, gen.StdSchemas, []string{"A", "B", "C"})
+		// One program in six has `let k = <n>` in front: a bare join key `on k`
+		// still means $left.k == $right.k (the documented meaning of a bare
+		// name after `on`); every other reference to column k is then written
+		// in backticks.
+		shadowKey := rapid.IntRange(0, 5).Draw(rt, "shadowkey") == 0
+		if shadowKey {
+			tenv.ForceQuote = map[string]bool{"k": true}
+		}
 		depth := env.Pick(2, 3)
 		// left prefix, a join, then more operators (possibly more joins)
 		var kinds []string
@@ -316,8 +324,12 @@ func TestC03Joins(t *testing.T) {
 		js := &joinStats{kinds: map[string]bool{}}
 		joinShape(q, 0, js)
 		prog := &gen.Program{Stmts: []gen.Stmt{q}}
-		c := mkEvalCase(prog, db, nil)
 		classes := []string{fmt.Sprintf("joins:%d", js.joins)}
+		if shadowKey {
+			prog.Stmts = []gen.Stmt{&gen.Let{Name: gen.Ident{Name: "k"}, X: &gen.Num{Text: fmt.Sprint(rapid.IntRange(0, 3).Draw(rt, "kval"))}}, q}
+			classes = append(classes, "let-named-like-the-join-key")
+		}
+		c := mkEvalCase(prog, db, nil)
 		if js.nested > 0 {
 			classes = append(classes, "nested-join")
 		}
